@@ -445,7 +445,7 @@ def r9_edge_step_conservation(ck, P):
 def r10_row_weight_constant(ck, P):
     """sibling agreement with the macro definition: in the a8 rasteriser a span that is fully covered in one sample row gains
     N_X_FRAC(8) per row; the deferred fill multiplies its row count by that same weight at every write-out."""
-    R = ck.rule('C12-R10', 'in the a8 edge rasteriser every write-out of the deferred span multiplies the row count (fill_size) by N_X_FRAC (8), the weight a fully covered pixel gains per sample row, so that a pixel covered in all N_Y_FRAC (8) rows reaches exactly the maximum: no write-out uses another constant', floor=10)
+    R = ck.rule('C12-R10', 'in the a8 edge rasteriser every write-out of the deferred span multiplies the row count (fill_size) by N_X_FRAC (8), the weight a fully covered pixel gains per sample row, so that a pixel covered in all N_Y_FRAC (8) rows reaches exactly the maximum: no write-out uses another constant', floor=20)
     C = consts.get(['PX_NX8', 'PX_NY8'], pre='#define PX_NX8 N_X_FRAC (8)\n#define PX_NY8 N_Y_FRAC (8)')
     nx = int(C['PX_NX8'])
     n = 0
@@ -471,3 +471,83 @@ def r10_row_weight_constant(ck, P):
                 ck.violation(R, fn, 'write-out weight at %s' % x.loc(), '%s writes the deferred span out with weight fill_size * %d; a fully covered pixel gains N_X_FRAC (8) = %d per sample row everywhere else, so the interior of that span ends up lighter (or heavier) than the sum of its rows and a shape no longer equals the sum of its horizontal slices' % (fn, int(k[0][1]), nx), x.loc())
     if n == 0:
         ck.incomplete(R, 'no multiplication of the row count by a constant found in rasterize_edges_8')
+    # second clause: which weight goes with which span.  Each saturating-add loop adds a loop-invariant weight to `count` pixels;
+    # when the count is the length of the deferred span (it is computed from fill_end / fill_start) the weight is fill_size * N_X_FRAC (8)
+    from .factors import _loops_of
+    for un, u in sorted(P.units.items()):
+        if not un.startswith('pixman-edge'):
+            continue
+        f = u.functions.get('rasterize_edges_8')
+        if f is None:
+            continue
+        def names(o, d=0, seen=None):
+            seen = set() if seen is None else seen
+            y = f.v(o)
+            if y is None or y.i in seen or d > 8:
+                return set()
+            seen.add(y.i)
+            out = {y.dv} if y.dv else set()
+            if y.op in ('load', 'call'):
+                return out
+            for a in y.a:
+                if a and a[0] == 'v':
+                    out |= names(a, d + 1, seen)
+            return out
+        for lp in _loops_of(u).get(f.name, []):
+            blocks = set(lp['blocks'])
+            cnt = [f.by_id[p['v']] for p in lp['phis'] if not p['ty'].endswith('*') and p.get('step') == -1]
+            cur = [f.by_id[p['v']] for p in lp['phis'] if p['ty'].endswith('*')]
+            if len(cnt) != 1 or not cur or len(blocks) > 8:
+                continue
+            init = [a for a, bb in zip(cnt[0].a, cnt[0].d['bb']) if bb not in blocks]
+            if not init:
+                continue
+            # the pixels [start, start + count) lie inside the deferred span [fill_start, fill_end) when they begin at fill_start or
+            # end at fill_end (count = fill_end - start); pixels that begin at fill_end or end at fill_start are new to this row
+            def nm(o):
+                y = f.v(o)
+                while y is not None and y.op in ('sext', 'zext', 'trunc') and not y.dv:
+                    y = f.v(y.a[0])
+                return y.dv if y is not None else None
+            c0 = f.v(init[0])
+            while c0 is not None and c0.op in ('sext', 'zext', 'trunc'):
+                c0 = f.v(c0.a[0])
+            if c0 is None or c0.op != 'sub':
+                continue
+            A, B = nm(c0.a[0]), nm(c0.a[1])
+            cinit = [a for a, bb in zip(cur[0].a, cur[0].d['bb']) if bb not in blocks]
+            start = None
+            if cinit:
+                g_ = f.v(cinit[0])
+                if g_ is not None and g_.op == 'getelementptr':
+                    idx = [st[1] for st in g_.d.get('path', []) if st and st[0] in ('p', 'x') and isinstance(st[1], list) and st[1][0] == 'v']
+                    start = nm(idx[-1]) if idx else None
+            if start is None or A is None or B is None:
+                continue
+            if start == 'fill_start' or (A == 'fill_end' and B == start and start != 'fill_start' and B != 'fill_start'):
+                deferred = True
+            elif start == 'fill_end' or A == 'fill_start':
+                deferred = False
+            elif A == 'fill_end' and B == 'fill_start':
+                deferred = True
+            else:
+                continue
+            # the loop-invariant addend
+            val = None
+            for b in blocks:
+                for x in f.blocks[b].insts:
+                    if x.op == 'add':
+                        for a in x.a:
+                            y = f.v(a)
+                            if a[0] == 'c' and int(a[1]) not in (1, -1):
+                                val = ('const', int(a[1]), x)
+                            elif y is not None and y.bb.id not in blocks and y.op in ('mul', 'trunc', 'zext', 'sext'):
+                                val = ('value', names(a), x)
+            if val is None:
+                continue
+            n += 1
+            where = '%s/rasterize_edges_8: saturating add loop at block %d (%s span)' % (un, lp['header'], 'deferred' if deferred else 'current row')
+            if deferred and not (val[0] == 'value' and 'fill_size' in val[1]):
+                ck.violation(R, f.name, 'weight of the deferred span at %s (%s)' % (val[2].loc(), un), 'rasterize_edges_8 writes the deferred span (its length comes from fill_end - fill_start) out with a weight that is not fill_size * N_X_FRAC (8): the rows accumulated in fill_size are lost, the interior of the span is under-covered and a shape no longer equals the sum of its slices', val[2].loc())
+            else:
+                ck.ok(R, where)
